@@ -2,11 +2,14 @@
   C15 — GP-type / rank / landmark options resolve consistently and fail cleanly.
   Property theorems only (helpers in ParamsLemmas.lean).  All statements are about the total function
   `Mellon.resolve : Config → Outcome` of MellonModel/Params.lean (a transcription of the option
-  resolution of /repo as of e3730dc), for ALL numbers of cells `n`, all integers `n_landmarks`,
+  resolution of /repo as of e3730dc plus the repairs F1–F6 of the function estimator and of the
+  rank validation), for ALL numbers of cells `n`, all integers `n_landmarks`,
   `rank`, all rational ranks, all `gp_type` strings, all landmark row counts.
 
   `prepare c = .ok r` is "constructor + n_landmarks/rank/gp_type defaults + validate_parameter()
-  succeeded with the resolved triple r = (nl, rank, gp)".
+  succeeded with the resolved triple r = (nl, rank, gp)".  `effConfig c` is `c` itself for the three
+  inference estimators and `c` with the constructor's fixed `rank = 1.0` for the function estimator.
+  All theorems below hold for all four estimators unless an `est ≠ .function` hypothesis is shown.
 -/
 import MellonProofs.ParamsLemmas
 
@@ -93,26 +96,34 @@ theorem fromString_examples :
 
 /-! ### rules: an accepted configuration has the documented GP type -/
 
-/-- An accepted configuration went through `prepare`, and its type is the prepared one. -/
-theorem accepted_prepared (c : Config) (hest : c.est ≠ .function) {gp : GPType} {rows cols : Nat}
-    {cls : PredFamily} (h : resolve c = .ok gp rows cols cls) : ∃ r, prepare c = .ok r ∧ r.gp = gp := by
-  rw [resolve_densityLike hest] at h
-  obtain ⟨r, lm, hp, _, _, _, _, _, hg, _⟩ := resolveDensityLike_ok h
-  exact ⟨r, hp, hg.symm⟩
+/-- An accepted configuration (any estimator) went through `prepare`, and its type is the prepared one. -/
+theorem accepted_prepared (c : Config) {gp : GPType} {rows cols : Nat}
+    {cls : PredFamily} (h : resolve c = .ok gp rows cols cls) :
+    ∃ r, prepare (effConfig c) = .ok r ∧ r.gp = gp := by
+  by_cases hest : c.est = .function
+  · rw [resolve_function hest] at h
+    obtain ⟨r, lm, hp, _, _, hf, _⟩ := resolveFunction_ok h
+    rw [effConfig_function hest]
+    exact ⟨r, hp, (functionPredictor_ok hf).1.symm⟩
+  · rw [resolve_densityLike hest] at h
+    obtain ⟨r, lm, hp, _, _, _, _, _, hg, _⟩ := resolveDensityLike_ok h
+    rw [effConfig_other hest]
+    exact ⟨r, hp, hg.symm⟩
 
 /-- The resolved triple is consistent with the documented rules: the full family only without
     landmarks or with at least `n` of them, the sparse family only with `0 < n_landmarks < n`, `fixed`
-    only with landmarks, explicit landmarks fix `n_landmarks`, and the type is a Nyström type exactly
-    when the rank request asks for a reduction. -/
+    only with landmarks, explicit landmarks fix `n_landmarks`, the rank is not negative, and the type
+    is a Nyström type exactly when the rank request asks for a reduction. -/
 theorem rules (c : Config) (r : Resolved) (h : prepare c = .ok r) :
     (r.gp.isFullFamily → r.nl = 0 ∨ c.n ≤ r.nl) ∧
     (r.gp.isSparseFamily → 0 < r.nl ∧ r.nl < c.n) ∧
     (r.gp = .fixed → r.nl ≠ 0) ∧
     (∀ m, c.landmarks = some m → r.nl = m) ∧
+    r.rank.isNegative = false ∧
     (r.gp.isNystroem ↔ rankIndicatesFull r.gp c.n r.rank r.nl = false) := by
   obtain ⟨_, _, _, _, _, _, _, _, _, hv⟩ := prepare_ok h
   rw [validateParams_ok] at hv
-  exact ⟨hv.2.1.1, hv.2.1.2.1, hv.2.1.2.2, hv.1, hv.2.2⟩
+  exact ⟨hv.2.1.1, hv.2.1.2.1, hv.2.1.2.2, hv.1, hv.2.2.1, hv.2.2.2⟩
 
 /-- Without an explicit `gp_type` the type is THE documented function of the inputs: full family iff
     there are no or at least `n` landmarks; Nyström variant iff the rank is not "full rank"
@@ -227,134 +238,184 @@ theorem rank_default (c : Config) (r : Resolved) (h : prepare c = .ok r) :
     subst h2
     simpa using h5
 
-/-
-  Full-strength statement of "Nyström type ⇒ the DOCUMENTED rank range" (NOT a theorem of the current
-  code, see `negative_rank_counterexample`):
-      prepare c = .ok r → r.gp.isNystroem →
-        match r.rank with | .int k => 0 < k ∧ k < bound | .flt q => 0 < q ∧ q < 1
-  The code only checks `rank < bound`, `rank ≠ 0`, so negative ranks pass.
--/
-
-/-- For non-negative ranks a Nyström type means the documented range: fractional `0 < q < 1` or an
-    integer `0 < k <` (number of cells, resp. landmarks). -/
-theorem rules_nystroem_documented_partial (c : Config) (r : Resolved) (h : prepare c = .ok r)
-    (hnn : match r.rank with | .int k => 0 ≤ k | .flt q => 0 ≤ q) (hN : r.gp.isNystroem) :
+/-- A Nyström type means the DOCUMENTED rank range: fractional `0 < q < 1` or an integer
+    `0 < k <` (number of cells, resp. landmarks).  (Full strength since negative ranks are refused.) -/
+theorem rules_nystroem_documented (c : Config) (r : Resolved) (h : prepare c = .ok r)
+    (hN : r.gp.isNystroem) :
     match r.rank with
     | .int k => 0 < k ∧ k < (if r.gp = .fullNystroem then (c.n : Int) else (r.nl : Int))
     | .flt q => 0 < q ∧ q < 1 := by
   have hr := (rules c r h).2.2.2.2
-  have hf := hr.mp hN
+  have hf := hr.2.mp hN
+  have hneg := hr.1
   cases hrk : r.rank with
   | int k =>
-    rw [hrk] at hf hnn
-    simp only [] at hnn
+    rw [hrk] at hf hneg
+    simp only [RankV.isNegative, decide_eq_false_iff_not, not_lt] at hneg
     cases hg : r.gp <;> rw [hg] at hN hf <;> simp [GPType.isNystroem] at hN <;>
       simp [rankIndicatesFull] at hf <;> simp <;> omega
   | flt q =>
-    rw [hrk] at hf hnn
-    simp only [] at hnn
+    rw [hrk] at hf hneg
+    simp only [RankV.isNegative, decide_eq_false_iff_not, not_lt] at hneg
     simp only [rankIndicatesFull, Bool.or_eq_false_iff, decide_eq_false_iff_not, not_le] at hf
-    exact ⟨lt_of_le_of_ne hnn (Ne.symm hf.2), hf.1⟩
+    exact ⟨lt_of_le_of_ne hneg (Ne.symm hf.2), hf.1⟩
 
-/-- Witness of the excluded region: `rank = -1` is accepted as a Nyström request and keeps `n-1`
-    columns (replayed on the implementation by the harness; known finding
-    `C15:negative-rank-accepted`). -/
-theorem negative_rank_counterexample :
+/-- Regression witness of repaired defect F5: `rank = -1` is refused. -/
+theorem negative_rank_refused :
     resolve {
       est := .density, n := 12, nLandmarks := none, landmarks := none, rank := .int (-1),
       gpType := .none, withUnc := false, opt := .lbfgsb, kept := 1, sigma := .scalar }
-      = .ok .fullNystroem 12 11 .full := by decide
+      = .refused .rankNegative := by decide
+
+/-- The function estimator's constructor fixes `rank = 1.0`, so it never resolves to a Nyström type. -/
+theorem function_never_nystroem (c : Config) (hest : c.est = .function) {gp : GPType} {rows cols : Nat}
+    {cls : PredFamily} (h : resolve c = .ok gp rows cols cls) : ¬ gp.isNystroem := by
+  rw [resolve_function hest] at h
+  obtain ⟨r, lm, _, _, _, hf, hN⟩ := resolveFunction_ok h
+  rw [(functionPredictor_ok hf).1]
+  exact hN
 
 /-! ### promised shape of `L`, predictor family -/
 
-/-- An accepted configuration yields `L` with `n` rows and at least one column; `full`: `n` columns;
-    `full_nystroem`: at most `n`; `sparse_cholesky` / `fixed`: one column per inducing point, which are
-    the landmarks given, else `n_landmarks` k-means centres, else (for `fixed` with `n_landmarks ≥ n`)
-    all `n` cells; `sparse_nystroem`: at most as many as landmarks, which are fewer than cells. -/
-theorem shape_promise (c : Config) (hest : c.est ≠ .function) {gp : GPType} {rows cols : Nat}
+/-- An accepted configuration yields a factor (for the function estimator: a set of conditioning
+    points) with `n` rows and at least one column; `full`: `n` columns; `full_nystroem`: at most `n`;
+    `sparse_cholesky` / `fixed`: one column per inducing point, which are the landmarks given, else
+    `n_landmarks` k-means centres, else (for `fixed` with `n_landmarks ≥ n`) all `n` cells;
+    `sparse_nystroem`: at most as many as landmarks, which are fewer than cells. -/
+theorem shape_promise (c : Config) {gp : GPType} {rows cols : Nat}
     {cls : PredFamily} (h : resolve c = .ok gp rows cols cls) :
     rows = c.n ∧ 1 ≤ cols ∧
     (gp = .full → cols = c.n) ∧
     (gp = .fullNystroem → cols ≤ c.n) ∧
     (gp = .sparseCholesky ∨ gp = .fixed →
-      ∃ r, prepare c = .ok r ∧ cols = c.landmarks.getD (if c.n ≤ r.nl then c.n else r.nl)) ∧
-    (gp = .sparseNystroem → ∃ r, prepare c = .ok r ∧ cols ≤ r.nl ∧ r.nl < c.n) := by
-  rw [resolve_densityLike hest] at h
-  obtain ⟨r, lm, hp, hn, hl, hc, h0, _, hg, _⟩ := resolveDensityLike_ok h
-  obtain ⟨hrows, _, hfull, hfn, hsc, hsn⟩ := computeL_inr hc
-  have hrules := rules c r hp
-  subst hg
-  refine ⟨hrows, by omega, hfull, ?_, ?_, ?_⟩
-  · intro hg
-    rw [hfn hg]
-    exact nystroemCols_le r.rank c.n c.kept (by omega)
-  · intro hg
-    obtain ⟨m, hm, hcm⟩ := hsc hg
-    refine ⟨r, hp, ?_⟩
-    rcases landmarksStep_ok hl with ⟨m', hu, hm'⟩ | ⟨hu, hcl⟩
-    · rw [hu]; simp only [Option.getD_some]; rw [hm] at hm'; simp only [Option.some.injEq] at hm'; omega
-    · rw [hu]; simp only [Option.getD_none]
-      rcases computeLandmarks_ok hcl with ⟨_, hn'⟩ | ⟨_, h2, _, hn'⟩ | ⟨_, _, _, hn'⟩ | ⟨_, h2, hn'⟩
-      · rw [hm] at hn'; simp at hn'
-      · rw [hm] at hn'; simp only [Option.some.injEq] at hn'; rw [if_pos h2]; omega
-      · rw [hm] at hn'; simp at hn'
-      · rw [hm] at hn'; simp only [Option.some.injEq] at hn'; rw [if_neg (by omega)]; omega
-  · intro hg
-    obtain ⟨m, hm, hcm⟩ := hsn hg
-    have hsp := hrules.2.1 (by rw [hg]; trivial)
-    refine ⟨r, hp, ?_, hsp.2⟩
-    have hmnl : m = r.nl := by
-      rcases landmarksStep_ok hl with ⟨m', hu, hm'⟩ | ⟨hu, hcl⟩
-      · rw [hm] at hm'; simp only [Option.some.injEq] at hm'
-        have := hrules.2.2.2.1 m' hu; omega
-      · rcases computeLandmarks_ok hcl with ⟨_, hn'⟩ | ⟨_, h2, _, hn'⟩ | ⟨_, _, _, hn'⟩ | ⟨_, h2, hn'⟩
-        · rw [hm] at hn'; simp at hn'
-        · omega
-        · rw [hm] at hn'; simp at hn'
-        · rw [hm] at hn'; simp only [Option.some.injEq] at hn'; exact hn'
-    rw [hcm]
-    have := nystroemCols_le r.rank (min m c.n) c.kept (by omega)
-    omega
+      ∃ r, prepare (effConfig c) = .ok r ∧ cols = c.landmarks.getD (if c.n ≤ r.nl then c.n else r.nl)) ∧
+    (gp = .sparseNystroem → ∃ r, prepare (effConfig c) = .ok r ∧ cols ≤ r.nl ∧ r.nl < c.n) := by
+  by_cases hest : c.est = .function
+  · -- function estimator
+    have hN := function_never_nystroem c hest h
+    rw [resolve_function hest] at h
+    obtain ⟨r, lm, hp, hn, hl, hf, _⟩ := resolveFunction_ok h
+    obtain ⟨hg, hrows, _, hcols⟩ := functionPredictor_ok hf
+    rw [effConfig_function hest]
+    subst hg
+    refine ⟨hrows, ?_, ?_, ?_, ?_, ?_⟩
+    · rw [hcols]
+      by_cases hfull : r.gp = .full ∨ r.gp = .fullNystroem
+      · rw [if_pos hfull]; omega
+      · rw [if_neg hfull]
+        have hsf : r.gp.isSparseFamily ∨ r.gp = .fixed := by
+          cases hgp : r.gp <;> simp_all [GPType.isSparseFamily]
+        obtain ⟨hlm, _, hpos⟩ := inducing_points hp hl hsf
+        rw [hlm]
+        simp only [Option.getD_some]
+        have hr := (rules _ r hp).2.2.2.1
+        cases hcl : c.landmarks with
+        | none => simp only [Option.getD_none]; split_ifs <;> omega
+        | some m => have := hr m hcl; simp only [Option.getD_some]; omega
+    · intro hgp; rw [hcols, if_pos (Or.inl hgp)]
+    · intro hgp; rw [hgp] at hN; exact absurd trivial hN
+    · intro hgp
+      refine ⟨r, hp, ?_⟩
+      have hsf : r.gp.isSparseFamily ∨ r.gp = .fixed := by
+        rcases hgp with hgp | hgp <;> rw [hgp] <;> simp [GPType.isSparseFamily]
+      obtain ⟨hlm, _, _⟩ := inducing_points hp hl hsf
+      have hnf : ¬ (r.gp = .full ∨ r.gp = .fullNystroem) := by
+        rcases hgp with hgp | hgp <;> rw [hgp] <;> simp
+      rw [hcols, if_neg hnf, hlm]
+      rfl
+    · intro hgp; rw [hgp] at hN; exact absurd trivial hN
+  · -- inference estimators
+    rw [resolve_densityLike hest] at h
+    obtain ⟨r, lm, hp, hn, hl, hc, h0, _, hg, _⟩ := resolveDensityLike_ok h
+    obtain ⟨hrows, _, hfull, hfn, hsc, hsn⟩ := computeL_inr hc
+    rw [effConfig_other hest]
+    subst hg
+    refine ⟨hrows, by omega, hfull, ?_, ?_, ?_⟩
+    · intro hg
+      rw [hfn hg]
+      exact nystroemCols_le r.rank c.n c.kept (by omega)
+    · intro hg
+      obtain ⟨m, hm, hcm⟩ := hsc hg
+      have hsf : r.gp.isSparseFamily ∨ r.gp = .fixed := by
+        rcases hg with hg | hg <;> rw [hg] <;> simp [GPType.isSparseFamily]
+      obtain ⟨hlm, _, _⟩ := inducing_points hp hl hsf
+      refine ⟨r, hp, ?_⟩
+      rw [hm] at hlm
+      simp only [Option.some.injEq] at hlm
+      omega
+    · intro hg
+      obtain ⟨m, hm, hcm⟩ := hsn hg
+      have hsp := (rules c r hp).2.1 (by rw [hg]; trivial)
+      obtain ⟨_, hnl, _⟩ := inducing_points hp hl (Or.inl (by rw [hg]; trivial))
+      have hmnl : m = r.nl := by
+        have := hnl (by rw [hg]; trivial)
+        rw [hm] at this
+        simpa using this
+      refine ⟨r, hp, ?_, hsp.2⟩
+      rw [hcm]
+      have := nystroemCols_le r.rank (min m c.n) c.kept (by omega)
+      omega
 
 /-- `fixed` keeps the requested inducing points: the landmarks given, else all cells when
     `n_landmarks ≥ n`, else `n_landmarks` of them — never fewer, never none. -/
-theorem fixed_keeps_points (c : Config) (hest : c.est ≠ .function) {rows cols : Nat} {cls : PredFamily}
+theorem fixed_keeps_points (c : Config) {rows cols : Nat} {cls : PredFamily}
     (h : resolve c = .ok .fixed rows cols cls) :
-    ∃ r, prepare c = .ok r ∧ cols = c.landmarks.getD (if c.n ≤ r.nl then c.n else r.nl) ∧
-      cls = .landmarksCholesky :=  by
-  obtain ⟨r, hp, hc⟩ := (shape_promise c hest h).2.2.2.2.1 (Or.inr rfl)
-  refine ⟨r, hp, hc, ?_⟩
-  rw [resolve_densityLike hest] at h
-  obtain ⟨r', lm, hp', _, _, hcl, _, _, hg, hcls⟩ := resolveDensityLike_ok h
-  obtain ⟨_, _, _, _, hsc, _⟩ := computeL_inr hcl
-  obtain ⟨m, hm, hcm⟩ := hsc (Or.inr hg.symm)
-  rw [hcls, ← hg, hm]
-  simp [predictorClass, hcm]
+    ∃ r, prepare (effConfig c) = .ok r ∧ cols = c.landmarks.getD (if c.n ≤ r.nl then c.n else r.nl) :=
+  (shape_promise c h).2.2.2.2.1 (Or.inr rfl)
 
-/-- The predictor family is the one that belongs to the type: `full`, `full_nystroem` → Full,
-    `sparse_cholesky`, `fixed` → Landmarks-Cholesky (latent), `sparse_nystroem` → Landmarks. -/
-theorem pred_matches_type (c : Config) (hest : c.est ≠ .function) {gp : GPType} {rows cols : Nat}
-    {cls : PredFamily} (h : resolve c = .ok gp rows cols cls) : cls = gp.family := by
-  rw [resolve_densityLike hest] at h
-  obtain ⟨r, lm, hp, _, _, hcl, _, _, hg, hcls⟩ := resolveDensityLike_ok h
-  obtain ⟨_, _, _, _, hsc, hsn⟩ := computeL_inr hcl
-  subst hg
-  rw [hcls]
-  cases hgp : r.gp with
-  | full => simp [predictorClass, GPType.family]
-  | fullNystroem => simp [predictorClass, GPType.family]
-  | sparseCholesky =>
-    obtain ⟨m, hm, hcm⟩ := hsc (Or.inl hgp)
-    simp [predictorClass, GPType.family, hm, hcm]
-  | fixed =>
-    obtain ⟨m, hm, hcm⟩ := hsc (Or.inr hgp)
-    simp [predictorClass, GPType.family, hm, hcm]
-  | sparseNystroem =>
-    obtain ⟨m, hm, _⟩ := hsn hgp
-    simp [predictorClass, GPType.family, hm]
+/-- The predictor family is the one that belongs to the type.  Inference estimators: `full`,
+    `full_nystroem` → Full, `sparse_cholesky`, `fixed` → Landmarks-Cholesky (latent),
+    `sparse_nystroem` → Landmarks.  Function estimator (no latent vector): `full` → Full,
+    `sparse_cholesky`, `fixed` → Landmarks. -/
+theorem pred_matches_type (c : Config) {gp : GPType} {rows cols : Nat}
+    {cls : PredFamily} (h : resolve c = .ok gp rows cols cls) : cls = gp.familyFor c.est := by
+  by_cases hest : c.est = .function
+  · have hN := function_never_nystroem c hest h
+    rw [resolve_function hest] at h
+    obtain ⟨r, lm, hp, _, hl, hf, _⟩ := resolveFunction_ok h
+    obtain ⟨hg, _, hcls, _⟩ := functionPredictor_ok hf
+    subst hg
+    rw [hcls]
+    unfold GPType.familyFor
+    rw [if_pos hest]
+    by_cases hfull : r.gp = .full ∨ r.gp = .fullNystroem
+    · rw [if_pos hfull]
+      rcases hfull with hg | hg <;> rw [hg] <;> rfl
+    · rw [if_neg hfull]
+      have hsf : r.gp.isSparseFamily ∨ r.gp = .fixed := by
+        cases hgp : r.gp <;> simp_all [GPType.isSparseFamily]
+      obtain ⟨hlm, _, _⟩ := inducing_points hp hl hsf
+      rw [hlm]
+      simp only [Option.isSome_some, if_true]
+      cases hgp : r.gp with
+      | full => exact absurd (Or.inl hgp) hfull
+      | fullNystroem => exact absurd (Or.inr hgp) hfull
+      | sparseCholesky => rfl
+      | sparseNystroem => rfl
+      | fixed => rfl
+  · rw [resolve_densityLike hest] at h
+    obtain ⟨r, lm, hp, _, _, hcl, _, _, hg, hcls⟩ := resolveDensityLike_ok h
+    obtain ⟨_, _, _, _, hsc, hsn⟩ := computeL_inr hcl
+    subst hg
+    rw [hcls]
+    unfold GPType.familyFor
+    rw [if_neg hest]
+    cases hgp : r.gp with
+    | full => simp [predictorClass, GPType.family]
+    | fullNystroem => simp [predictorClass, GPType.family]
+    | sparseCholesky =>
+      obtain ⟨m, hm, hcm⟩ := hsc (Or.inl hgp)
+      simp [predictorClass, GPType.family, hm, hcm]
+    | fixed =>
+      obtain ⟨m, hm, hcm⟩ := hsc (Or.inr hgp)
+      simp [predictorClass, GPType.family, hm, hcm]
+    | sparseNystroem =>
+      obtain ⟨m, hm, _⟩ := hsn hgp
+      simp [predictorClass, GPType.family, hm]
 
 /-- `predictor_with_uncertainty` is only accepted together with the optimizer that provides the
-    input uncertainty (`advi`); with a point optimizer the configuration is refused. -/
+    input uncertainty (`advi`); with a point optimizer the configuration is refused.  (The function
+    estimator takes its input uncertainty from `sigma` instead.) -/
 theorem uncertainty_needs_advi (c : Config) (hest : c.est ≠ .function) {gp : GPType} {rows cols : Nat}
     {cls : PredFamily} (h : resolve c = .ok gp rows cols cls) (hu : c.withUnc = true) : c.opt = .advi := by
   rw [resolve_densityLike hest] at h
@@ -364,81 +425,65 @@ theorem uncertainty_needs_advi (c : Config) (hest : c.est ≠ .function) {gp : G
 
 /-! ### clean failure -/
 
-/-- The three inference estimators never end in an internal error, whatever the configuration. -/
-theorem no_internal_inference_estimators (c : Config) (hest : c.est ≠ .function) :
-    resolve c ≠ .internal := by
-  intro h
-  rw [resolve_densityLike hest] at h
-  obtain ⟨r, lm, hp, hl, hc⟩ := resolveDensityLike_internal h
-  obtain ⟨hlm, hgp, _⟩ := computeL_internal hc
-  have hrules := rules c r hp
-  subst hlm
-  rcases landmarksStep_ok hl with ⟨m', _, hm'⟩ | ⟨_, hcl⟩
-  · simp at hm'
-  · rcases computeLandmarks_ok hcl with ⟨h0, _⟩ | ⟨_, _, _, hn'⟩ | ⟨_, h2, hnf, _⟩ | ⟨_, _, hn'⟩
-    · rcases hgp with hg | hg | hg
-      · have := hrules.2.1 (by rw [hg]; trivial); omega
-      · exact hrules.2.2.1 hg h0
-      · have := hrules.2.1 (by rw [hg]; trivial); omega
-    · simp at hn'
-    · rcases hgp with hg | hg | hg
-      · have := hrules.2.1 (by rw [hg]; trivial); omega
-      · exact hnf hg
-      · have := hrules.2.1 (by rw [hg]; trivial); omega
-    · simp at hn'
-
-/-
-  Full-strength statement (NOT a theorem of the current code, see the counterexamples below):
-      theorem no_internal (c : Config) : resolve c ≠ .internal
--/
-
-/-- An internal error can only come from the function estimator, and only from a noise array /
-    uncertainty request whose size does not fit the number of conditioning points (`NoiseFits`). -/
-theorem no_internal_partial (c : Config)
-    (hfit : c.est = .function → ∀ lm, NoiseFits c.n lm c.withUnc c.sigma) : resolve c ≠ .internal := by
+/-- No configuration of any of the four estimators ends in an internal error: every outcome is
+    either an accepted fit or a ValueError. -/
+theorem no_internal (c : Config) : resolve c ≠ .internal := by
   by_cases hest : c.est = .function
+  · rw [resolve_function hest]; exact resolveFunction_ne_internal c
   · intro h
-    obtain ⟨gp, lm, hfp⟩ := resolveFunction_internal (by rw [resolve_function hest] at h; exact h)
-    exact (functionPredictor_internal_iff.mp hfp) (hfit hest lm)
-  · exact no_internal_inference_estimators c hest
+    rw [resolve_densityLike hest] at h
+    obtain ⟨r, lm, hp, hl, hc⟩ := resolveDensityLike_internal h
+    obtain ⟨hlm, hgp, _⟩ := computeL_internal hc
+    have hsf : r.gp.isSparseFamily ∨ r.gp = .fixed := by
+      rcases hgp with hg | hg | hg <;> rw [hg] <;> simp [GPType.isSparseFamily]
+    obtain ⟨hsome, _, _⟩ := inducing_points hp hl hsf
+    rw [hlm] at hsome
+    simp at hsome
 
-/-- In particular the function estimator with a scalar noise level and without
-    `predictor_with_uncertainty` never fails internally. -/
-theorem no_internal_function_scalar (c : Config) (hs : c.sigma = .scalar) (hu : c.withUnc = false) :
-    resolve c ≠ .internal := by
-  apply no_internal_partial
-  intro _ lm
-  rw [hs, hu]
-  cases lm <;> simp [NoiseFits]
+/-- Hence every configuration is either accepted or refused with a ValueError. -/
+theorem accepted_or_refused (c : Config) :
+    (∃ gp r k cls, resolve c = .ok gp r k cls) ∨ (∃ e, resolve c = .refused e) := by
+  cases h : resolve c with
+  | ok gp r k cls => exact Or.inl ⟨gp, r, k, cls, rfl⟩
+  | refused e => exact Or.inr ⟨e, rfl⟩
+  | internal => exact absurd h (no_internal c)
 
-theorem no_internal_counterexample_uncertainty :
-    resolve {
-      est := .function, n := 6, nLandmarks := none, landmarks := some 4, rank := .none,
-      gpType := .none, withUnc := true, opt := .lbfgsb, kept := 1, sigma := .scalar } = .internal := by decide
+/-! ### regression witnesses of the repaired function-estimator defects (F1–F4, F6) -/
 
-theorem no_internal_counterexample_vector_sigma :
-    resolve {
-      est := .function, n := 6, nLandmarks := none, landmarks := some 4, rank := .none,
-      gpType := .none, withUnc := false, opt := .lbfgsb, kept := 1, sigma := .vecN } = .internal := by decide
-
-theorem no_internal_counterexample_matrix_sigma :
-    resolve {
-      est := .function, n := 6, nLandmarks := none, landmarks := none, rank := .none,
-      gpType := .none, withUnc := false, opt := .lbfgsb, kept := 1, sigma := .matN 2 } = .internal := by decide
-
-/-
-  Full-strength statement of "no silent contradiction" for the function estimator (NOT a theorem of
-  the current code): accepted ⇒ the consistency conditions of `rules`.  `FunctionEstimator` never
-  calls `validate_params`.
--/
-
-/-- Witness: `FunctionEstimator(gp_type='full', n_landmarks=2)` on 6 cells is accepted and conditions
-    on 2 landmarks although the type says "full" (known finding `C15:function-no-validation`). -/
-theorem function_silent_contradiction_counterexample :
+/-- F1: `FunctionEstimator(gp_type='full', n_landmarks=2)` on 6 cells is refused. -/
+theorem function_contradiction_refused :
     resolve {
       est := .function, n := 6, nLandmarks := some 2, landmarks := none, rank := .none,
       gpType := .str ['f','u','l','l'], withUnc := false, opt := .lbfgsb, kept := 1, sigma := .scalar }
-      = .ok .full 6 2 .landmarks := by decide
+      = .refused .fullButFewerLandmarks := by decide
+
+/-- F2: 4 landmarks on 6 cells with `predictor_with_uncertainty` fit (sparse type, Landmarks family). -/
+theorem function_uncertainty_landmarks_ok :
+    resolve {
+      est := .function, n := 6, nLandmarks := none, landmarks := some 4, rank := .none,
+      gpType := .none, withUnc := true, opt := .lbfgsb, kept := 1, sigma := .scalar }
+      = .ok .sparseCholesky 6 4 .landmarks := by decide
+
+/-- F3: a per-cell `sigma` with 4 landmarks on 6 cells is refused. -/
+theorem function_vector_sigma_refused :
+    resolve {
+      est := .function, n := 6, nLandmarks := none, landmarks := some 4, rank := .none,
+      gpType := .none, withUnc := false, opt := .lbfgsb, kept := 1, sigma := .vecN }
+      = .refused .sigmaShape := by decide
+
+/-- F4: a two-dimensional `sigma` is refused. -/
+theorem function_matrix_sigma_refused :
+    resolve {
+      est := .function, n := 6, nLandmarks := none, landmarks := none, rank := .none,
+      gpType := .none, withUnc := false, opt := .lbfgsb, kept := 1, sigma := .matN 2 }
+      = .refused .sigmaShape := by decide
+
+/-- F6: explicit landmarks (8 rows ≥ 6 cells) resolve to `full` and the Full predictor. -/
+theorem function_full_with_landmarks_is_full :
+    resolve {
+      est := .function, n := 6, nLandmarks := none, landmarks := some 8, rank := .none,
+      gpType := .none, withUnc := false, opt := .lbfgsb, kept := 1, sigma := .scalar }
+      = .ok .full 6 6 .full := by decide
 
 /-! ### non-vacuity: accepted configurations of every type exist -/
 
